@@ -51,7 +51,13 @@ BnVerdicts(ev) ==
   (IF \E c \in 1..Len(ev.gam) : ev.inv[c] # ev.qinv[c] \/ ev.fb[c] # (ev.b[c] - ev.mean[c]) * ev.qinv[c] + ev.beta[c]
    THEN <<"bn_fusing_terms_are_not_the_bn_algebra">> ELSE <<>>)
   \o (IF ev.bnw_ok # 1 THEN <<"fused_bn_layer_not_quantized_by_export">> ELSE <<>>)
-Verdicts(ev) == CASE ev.kind = "role" -> RoleVerdicts(ev) [] ev.kind = "model" -> ModelVerdicts(ev) [] OTHER -> BnVerdicts(ev)
+\* batch-norm folded layers: the entry holds the quantized FOLDED kernel / bias (decided by the harness on dyadic data), the
+\* layer's variables and the predictions are not touched
+FoldedVerdicts(ev) ==
+  (IF ev.entry_ok # 1 THEN <<"folded_layer_entry_is_not_the_quantized_folded_weights">> ELSE <<>>)
+  \o (IF ev.layer_untouched # 1 THEN <<"export_changes_predictions">> ELSE <<>>)
+Verdicts(ev) == CASE ev.kind = "role" -> RoleVerdicts(ev) [] ev.kind = "model" -> ModelVerdicts(ev)
+                  [] ev.kind = "folded" -> FoldedVerdicts(ev) [] OTHER -> BnVerdicts(ev)
 Init == i = 1
 Next == /\ i <= Len(Tr)
         /\ LET v == Verdicts(Tr[i]) IN IF v # <<>> THEN PrintT(<<"REJECT", i, v>>) ELSE TRUE
